@@ -524,6 +524,10 @@ def run(ctx):
                 ctx.ok('C04.3-cookie-verbatim', inst, 'passed on as held', ctx.where(KB, bb))
     ctx.anchor(n_ck >= 2, 'cookie fields / arguments in edp_client and edp_node')
 
+    from ..families import check_error_swallow as _swallow
+    ctx.rule('C04.6-errors-surface', 'in the functions of this property that can themselves report failure, the Result of one of the repository\'s own fallible functions is never turned into "nothing" or a default (ok(), unwrap_or*, map_or*): an error must surface as an error, not as a value the callee never produced; a rule about what must not be there (exercised on the fixture every run)', floor=0)
+    _swallow(ctx, P, 'C04.6-errors-surface', ('edp_client::handshake::', 'edp_client::state_machine::', 'edp_client::digest::', 'edp_client::connection::Connection::connect', 'edp_client::connection::Connection::perform_handshake'))
+
 
 def check_digest(ctx):
     B = ctx.body('edp_client::digest::compute_digest')
